@@ -8,7 +8,7 @@ ASSUME EmitReset
 EndSeq == SetToSeq(Ends)
 PoolSeq == SetToSeq(BagToSet(pooled))
 Behaviour ==
-    [sess |-> sess, steps |-> hist, resets |-> resets,
+    [sess |-> sess, steps |-> hist, resets |-> resets, cmode |-> cmode,
      ends |-> [k \in 1..Len(EndSeq) |->
                  [s |-> EndSeq[k][1], side |-> EndSeq[k][2],
                   verdict |-> st[EndSeq[k]].verdict, res |-> st[EndSeq[k]].res]],
